@@ -24,6 +24,14 @@ C11 — property theorems.  "Scripts can reach only the globals the host configu
   a shared world is a function of its own option sequence (`configs_independent_shared_inputs`,
   `shared_inputs_each_own_sequence`); the variant that adopts the caller's map is refuted.
 
+* Host objects (section 10): a replacement builtin / host value may be installed by any number of
+  configurations; for the code as it is (`Module.Override` writes the module's table only) no
+  `Config.init` and no sequence of builds writes a builtin's back-pointer (`init_never_writes_back`,
+  `host_objects_never_written(_seq)`) and a configuration built later changes no access result of an
+  earlier one, whatever objects the two share (`later_build_keeps_accesses`); the variant in which
+  Override adopts the replacement is refuted (`adopting_override_writes_host_object`,
+  `adopting_override_opens_path`, `shared_replacement_witness`).
+
 All statements quantify over ALL states, names, graphs and paths; nothing is bounded.
 -/
 namespace Risor.C11
@@ -1283,6 +1291,255 @@ example :
       .withGlobal [120] 9, .withGlobal [121] 8, .override [122] 4] ∧
     (build false w b).1.heap = w.heap ∧
     (build false w b).2.own = [([120], 9), ([111, 115], 1), ([122], 4)] := by
+  decide
+
+/-! ## 10. host OBJECTS shared between configurations
+
+The value of a `WithGlobalOverride` / `WithGlobal(s)` option is an object of the host; the host may
+install the same object (a replacement builtin created once) in any number of configurations that
+differ in what else they deny or override.  `World.back` holds the `Builtin.module` field of every
+builtin that exists — host replacements included (a builtin the host created has none: `__module__`
+is nil, id 1).  `buildO false` is `NewConfig(opts...)` with `Module.Override` as it is (it stores the
+replacement in the table and writes nothing else; `= build false`, `buildO_false`); `buildO true` is
+the contrast in which Override re-aims the replacement's back-pointer at the edited module. -/
+
+/-- **Config.init never writes a back-pointer.**  For every state, every list of denylist entries
+    and every list of overrides (any names, any depth, any values — builtins, modules, values):
+    the `Builtin.module` field of every builtin is after `Config.init` what it was before. -/
+theorem init_never_writes_back (st : St) (ds : List (List Name)) (os : List (List Name × Id)) :
+    (initCfg st ds os).back = st.back := by
+  unfold initCfg
+  have hd : ∀ (ds : List (List Name)) (s : St), (ds.foldl denyParts s).back = s.back := by
+    intro ds
+    induction ds with
+    | nil => intro s; rfl
+    | cons p ds ih =>
+      intro s
+      simp only [List.foldl_cons]
+      rw [ih]
+      exact (edit_frame _ (IsEdit.deny p) s root).2
+  have ho : ∀ (os : List (List Name × Id)) (s : St),
+      (os.foldl (fun s pv => overrideParts s pv.1 pv.2) s).back = s.back := by
+    intro os
+    induction os with
+    | nil => intro s; rfl
+    | cons pv os ih =>
+      intro s
+      simp only [List.foldl_cons]
+      rw [ih]
+      exact (edit_frame _ (IsEdit.override pv.1 pv.2) s root).2
+  rw [ho, hd]
+
+/-- building a configuration adds the back-pointers of ITS fresh default builtins and changes no
+    other (all worlds, all option sequences) -/
+theorem build_back (w : World) (b : Build) : (build false w b).1.back = w.back ++ b.newBack := by
+  unfold build initFrom
+  simp only [init_never_writes_back]
+
+/-- the statement "building a configuration leaves the `Builtin.module` field of every builtin that
+    already exists as it is", for either Override rule -/
+def HostObjectsNeverWritten (adoptOv : Bool) : Prop :=
+  ∀ (w : World) (b : Build) (x m : Id),
+    bget w.back x = some m → bget (buildO adoptOv w b).1.back x = some m
+
+/-- **host_objects_never_written.**  For the code as it is: for EVERY world (any builtins of the
+    host and of earlier configurations), every option sequence — in particular any number of
+    `WithGlobalOverride(name, r)` / `WithGlobal(name, r)` with a builtin `r` that other option
+    sequences name too —, every default table and every iteration order: `__module__` of every
+    existing builtin is after the build what it was before. -/
+theorem host_objects_never_written : HostObjectsNeverWritten false := by
+  intro w b x m h
+  rw [buildO_false, build_back, bget_append, h]
+
+/-- … and after any number of builds, one after the other -/
+theorem host_objects_never_written_seq (bs : List Build) (w : World) (x m : Id)
+    (h : bget w.back x = some m) : bget (runBuildsO false w bs).1.back x = some m := by
+  induction bs generalizing w with
+  | nil => exact h
+  | cons b bs ih =>
+    simp only [runBuildsO]
+    exact ih _ (host_objects_never_written w b x m h)
+
+/-- `access_congr` with the back-pointers compared only on the set `S` (the part of the heap the
+    configuration can reach): same globals, same back-pointer and same attribute table for every
+    object of `S`, `S` contains the globals and is closed under attribute steps — then EVERY access
+    attempt gives the same result. -/
+theorem access_congr_on (st st' : St) (S : Id → Prop)
+    (hg : st'.globals = st.globals)
+    (hb : ∀ x, S x → bget st'.back x = bget st.back x)
+    (hglob : ∀ n x, tget st.globals n = some x → S x)
+    (hclosed : ∀ x a y, S x → attrStep st x a = some y → S y)
+    (hframe : ∀ x, S x → st'.table x = st.table x) :
+    ∀ imp first attrs, access st' imp first attrs = access st imp first attrs := by
+  intro imp first attrs
+  have hstep : ∀ x a, S x → attrStep st' x a = attrStep st x a := by
+    intro x a hx
+    simp only [attrStep, hframe x hx, hb x hx]
+  have hfold : ∀ (attrs : List Name) (cur : Option Id), (∀ x, cur = some x → S x) →
+      attrs.foldl (fun cur a => cur.bind fun x => attrStep st' x a) cur =
+      attrs.foldl (fun cur a => cur.bind fun x => attrStep st x a) cur := by
+    intro attrs
+    induction attrs with
+    | nil => intro cur _; rfl
+    | cons a r ih =>
+      intro cur hcur
+      simp only [List.foldl_cons]
+      cases cur with
+      | none => exact ih none (fun x h => by cases h)
+      | some x =>
+        have hx := hcur x rfl
+        simp only [Option.bind_some, hstep x a hx]
+        exact ih _ (fun y hy => hclosed x a y hx hy)
+  unfold access
+  simp only [hg]
+  cases hget : tget st.globals first with
+  | none => exact hfold attrs none (fun x h => by cases h)
+  | some x =>
+    have hx := hglob first x hget
+    have hm : st'.isModule x = st.isModule x := by simp only [St.isModule, hframe x hx]
+    simp only [hm]
+    apply hfold
+    intro y hy
+    split at hy
+    · cases hy
+    · cases hy; exact hx
+
+/-- one attribute step (member or `__module__`) from a reachable object ends in a reachable object -/
+theorem attrStep_reachable (st : St) (x : Id) (a : Name) (y : Id)
+    (hx : x ∈ reach (graphOf st) [root]) (hy : attrStep st x a = some y) :
+    y ∈ reach (graphOf st) [root] := by
+  obtain ⟨r, hr, p, hp⟩ := (reach_sound_complete _ _ _).1 hx
+  have hedge : ∃ e ∈ graphOf st, e.src = x ∧ e.dst = y := by
+    unfold attrStep at hy
+    split at hy
+    · rename_i t ht
+      split at hy
+      · cases hy
+      · exact ⟨⟨x, .attr a, y⟩, member_edge_mem (st := st) (mtable_mem ht) (tget_mem hy), rfl, rfl⟩
+    · split at hy
+      · exact ⟨⟨x, .back, y⟩, back_edge_mem (st := st) (bget_mem hy), rfl, rfl⟩
+      · cases hy
+  obtain ⟨e, hem, hes, hed⟩ := hedge
+  exact (reach_sound_complete _ _ _).2 ⟨r, hr, p ++ [y], isPath_snoc _ r p x y hp e hem hes hed⟩
+
+/-- the statement "a configuration built LATER changes no access result of this configuration",
+    for either Override rule.  `g` = the globals of this configuration, `w` = the world it lives in
+    (after its own build), `b` = the later build.  Hypotheses: the later build's FRESH default
+    builtins are not already reachable from this configuration, and the later build edits the
+    attribute table of no object this configuration reaches (it edits only modules reachable from
+    its own globals: `editMember_frame`; configurations share no module when the defaults are
+    fresh per Config).  NOTHING is assumed about the values of the options: the two configurations
+    may name the same replacement objects. -/
+def LaterBuildKeepsAccesses (adoptOv : Bool) : Prop :=
+  ∀ (w : World) (g : Table) (b : Build),
+    (∀ bm ∈ b.newBack, bm.1 ∉ reach (graphOf ⟨g, w.mods, w.back⟩) [root]) →
+    (∀ x ∈ reach (graphOf ⟨g, w.mods, w.back⟩) [root],
+      mtable (buildO adoptOv w b).1.mods x = mtable w.mods x) →
+    ∀ imp first attrs,
+      accessIn (buildO adoptOv w b).1 g imp first attrs = accessIn w g imp first attrs
+
+/-- **later_build_keeps_accesses.**  For the code as it is: for every world, every configuration
+    in it and every later build — whatever objects its option sequence shares with this
+    configuration (the same replacement builtin under the same or another name, the same host
+    values) — EVERY access attempt of this configuration (identifier or import, then any chain of
+    attribute and `__module__` steps, of any length) gives after the later build exactly what it
+    gave before: a removed member stays unobtainable through `replacement.__module__` too. -/
+theorem later_build_keeps_accesses : LaterBuildKeepsAccesses false := by
+  intro w g b hfresh hframe
+  unfold accessIn
+  apply access_congr_on ⟨g, w.mods, w.back⟩ ⟨g, (buildO false w b).1.mods, (buildO false w b).1.back⟩
+    (fun x => x ∈ reach (graphOf ⟨g, w.mods, w.back⟩) [root]) rfl
+  · intro x hx
+    show bget (buildO false w b).1.back x = bget w.back x
+    rw [buildO_false, build_back, bget_append]
+    cases hbx : bget w.back x with
+    | some m => rfl
+    | none =>
+      show bget b.newBack x = none
+      cases hn : bget b.newBack x with
+      | none => rfl
+      | some m => exact absurd hx (hfresh _ (bget_mem hn))
+  · intro n x hx
+    exact global_reachable ⟨g, w.mods, w.back⟩ n x (tget_mem hx)
+  · intro x a y hx hy
+    exact attrStep_reachable _ x a y hx hy
+  · intro x hx
+    exact hframe x hx
+
+/-! ### contrast: `Module.Override` adopts the replacement -/
+
+/-- `os`, `exit`, `getenv`, `os.exit`, `os.getenv` as bytes -/
+def nOs : Name := [111, 115]
+def nExit : Name := [101, 120, 105, 116]
+def nGetenv : Name := [103, 101, 116, 101, 110, 118]
+def nOsExit : Name := nOs ++ [46] ++ nExit
+def nOsGetenv : Name := nOs ++ [46] ++ nGetenv
+
+/-- the host's replacement builtin 9, created once, without a module (`__module__` = nil = 1) -/
+def objWorld : World := ⟨[], [], [(9, 1)]⟩
+
+/-- the restricted tenant: `WithoutGlobal("os.getenv")`, `WithGlobalOverride("os.exit", r)`; its
+    fresh defaults: `os` ↦ module 2 = {exit ↦ 3, getenv ↦ 4} -/
+def victim : Build :=
+  ⟨[.opt (.without nOsGetenv), .opt (.override nOsExit 9)], [(nOs, 2)],
+   [(2, [(nExit, 3), (nGetenv, 4)])], [(3, 2), (4, 2)], [nOsGetenv], [(nOsExit, 9)]⟩
+
+/-- another tenant: only `WithGlobalOverride("os.exit", r)` with the SAME `r`; its fresh defaults:
+    `os` ↦ module 5 = {exit ↦ 6, getenv ↦ 7} -/
+def tenantB : Build :=
+  ⟨[.opt (.override nOsExit 9)], [(nOs, 5)],
+   [(5, [(nExit, 6), (nGetenv, 7)])], [(6, 5), (7, 5)], [], [(nOsExit, 9)]⟩
+
+/-- **Counterexample (adopting variant).**  Building ONE configuration writes the host's object:
+    the replacement's `__module__` is nil before and the configuration's `os` module afterwards. -/
+theorem adopting_override_writes_host_object : ¬ HostObjectsNeverWritten true := by
+  intro h
+  exact absurd (h objWorld victim 9 1 (by decide)) (by decide)
+
+/-- **Counterexample (adopting variant): a later build opens a path.**  All hypotheses of
+    `LaterBuildKeepsAccesses` hold for the victim and the later tenant B (fresh defaults, B edits
+    only its own module), yet `os.exit.__module__.getenv` changes under the victim's configuration. -/
+theorem adopting_override_opens_path : ¬ LaterBuildKeepsAccesses true := by
+  intro h
+  have := h (buildO true objWorld victim).1 (buildO true objWorld victim).2.own tenantB
+    (by decide) (by decide) false nOs [nExit, dunderModule, nGetenv]
+  revert this
+  decide
+
+/-- **What the script of the restricted tenant obtains, both variants.**  `a` = the victim built,
+    `b` = tenant B built afterwards; all accesses under the VICTIM's globals.
+    Adopting variant: `os.getenv` fails (removed), `os.exit.__module__.getenv` fails right after the
+    victim's own build and yields B's `getenv` (7) once B is built; 7 is reachable from the victim's
+    globals.  Code as it is: `os.exit` is the replacement, `os.exit.__module__` is nil at both
+    times, the chain fails at both times, 7 is unreachable, the replacement's back-pointer is nil. -/
+theorem shared_replacement_witness :
+    (let a := buildO true objWorld victim
+     let b := buildO true a.1 tenantB
+     accessIn b.1 a.2.own false nOs [nGetenv] = none ∧
+     accessIn a.1 a.2.own false nOs [nExit, dunderModule, nGetenv] = none ∧
+     accessIn b.1 a.2.own false nOs [nExit, dunderModule, nGetenv] = some 7 ∧
+     reachable (graphOf ⟨a.2.own, b.1.mods, b.1.back⟩) [root] 7 = true) ∧
+    (let a := buildO false objWorld victim
+     let b := buildO false a.1 tenantB
+     accessIn b.1 a.2.own false nOs [nExit] = some 9 ∧
+     accessIn a.1 a.2.own false nOs [nExit, dunderModule] = some 1 ∧
+     accessIn b.1 a.2.own false nOs [nExit, dunderModule] = some 1 ∧
+     accessIn a.1 a.2.own false nOs [nExit, dunderModule, nGetenv] = none ∧
+     accessIn b.1 a.2.own false nOs [nExit, dunderModule, nGetenv] = none ∧
+     reachable (graphOf ⟨a.2.own, b.1.mods, b.1.back⟩) [root] 7 = false ∧
+     bget b.1.back 9 = some 1) := by
+  decide
+
+/-- non-vacuity of `later_build_keeps_accesses`: its hypotheses hold for the victim and tenant B
+    (which share the replacement 9), and the victim does obtain the replacement under `os.exit` -/
+example :
+    (∀ bm ∈ tenantB.newBack, bm.1 ∉ reach (graphOf ⟨(buildO false objWorld victim).2.own,
+      (buildO false objWorld victim).1.mods, (buildO false objWorld victim).1.back⟩) [root]) ∧
+    (∀ x ∈ reach (graphOf ⟨(buildO false objWorld victim).2.own,
+      (buildO false objWorld victim).1.mods, (buildO false objWorld victim).1.back⟩) [root],
+      mtable (buildO false (buildO false objWorld victim).1 tenantB).1.mods x =
+        mtable (buildO false objWorld victim).1.mods x) ∧
+    accessIn (buildO false objWorld victim).1 (buildO false objWorld victim).2.own false nOs [nExit] = some 9 := by
   decide
 
 end Risor.C11
